@@ -499,8 +499,12 @@ func Drive(id, tier string, seed uint64) int {
 		os.WriteFile(v.Path, b, 0o644)
 	}
 	evb, _ := json.MarshalIndent(ev, "", " ")
-	os.MkdirAll(filepath.Join(VerifDir(), "evidence"), 0o755)
-	if err := os.WriteFile(filepath.Join(VerifDir(), "evidence", p.ID+".json"), evb, 0o644); err != nil {
+	evDir := filepath.Join(VerifDir(), "evidence")
+	if d := os.Getenv("VERIF_EVIDENCE_DIR"); d != "" {
+		evDir = d // runs against a scratch copy of the library must not overwrite the real evidence
+	}
+	os.MkdirAll(evDir, 0o755)
+	if err := os.WriteFile(filepath.Join(evDir, p.ID+".json"), evb, 0o644); err != nil {
 		fmt.Fprintln(os.Stderr, "cannot write evidence:", err)
 		return 2
 	}
